@@ -104,6 +104,24 @@ SIM = {
                     sizes=(2, 4), kcap=3, paused=False, env=("data", "peof", "drain"), maxenv=0, emit=True),
 }
 SIM_DEPTH = 45
+# the raw-socket loops of UNIXSocketStream (spec/SockRaw.tla)
+RAW_INV = ["PropertyHolds", "GuardsExact", "WaitersCanBeWoken", "KernelBounded"]
+
+
+def rconsts(*, nt=2, ops=((), (), ()), maxops=3, total=2, mbs=(1, 2), sizes=(1, 3), kcap=2, kin=2,
+            env=("data", "peof", "drain", "reset", "cancel"), maxenv=1) -> dict:
+    o = list(ops) + [()] * (3 - len(ops))
+    return {"NT": nt, "Ops1": S(o[0]), "Ops2": S(o[1]), "Ops3": S(o[2]), "MaxOps": maxops, "Total": total,
+            "MaxBytesSet": S(mbs), "SendSizes": S(sizes), "KCap": kcap, "KIn": kin, "EnvKinds": S(env),
+            "MaxEnv": maxenv}
+
+
+RAW = {
+    "quick": [("raw", rconsts(ops=((R, SN), (R, SN, CL)), maxops=3), "inv")],
+    "thorough": [("raw", rconsts(nt=3, ops=((R, SN), (R, SN), (CL, EO)), maxops=3, total=3), "inv"),
+                 ("raw-4ops", rconsts(ops=((R, SN), (R, SN, CL, EO)), maxops=4, total=3), "inv"),
+                 ("raw-live", rconsts(ops=((R, SN), (R, SN, CL)), maxops=3), "live")],
+}
 
 
 def _out() -> Path:
@@ -144,6 +162,17 @@ def _run_live(name: str, c: dict, workers: int):
     if r.violated:
         raise tlc.TLCError(f"SockProto liveness ({name}) violated: {r.violated}\n{r.output[-3000:]}")
     return name, c, r
+
+
+def _run_raw(name: str, c: dict, what: str):
+    if what == "live":
+        cfg = _cfg("raw-" + name, c, spec="FairSpec", view=None, properties=["Live"])
+    else:
+        cfg = _cfg("raw-" + name, c, spec="Spec", view=None, invariants=RAW_INV)
+    r = tlc.run_tlc("SockRaw", cfg, workers=4, timeout=3000, tag="c18w")
+    if r.violated:
+        raise tlc.TLCError(f"SockRaw configuration {name} violates {r.violated}:\n{r.output[-3000:]}")
+    return name, c, r, what
 
 
 def _run_f10(name: str, c: dict):
@@ -218,6 +247,8 @@ def _tlc_phase(tier: str, seed: int, quick: bool, nsim: int) -> list:
         for name, c in CHECK[tier]:
             jobs.append(("check", ex.submit(_run_check, name, c, 4)))
         jobs.append(("live", ex.submit(_run_live, *LIVE[tier], 4)))
+        for name, c, what in RAW[tier]:
+            jobs.append(("raw", ex.submit(_run_raw, name, c, what)))
         if not quick:   # quick: the emitted unpaused / cancel configuration shows the same (x.bad)
             jobs.append(("f10", ex.submit(_run_f10, *F10)))
             jobs.append(("f10", ex.submit(_run_f10, *F10C)))
@@ -261,6 +292,10 @@ def main(tier: str, seed: int) -> int:
         elif kind == "live":
             name, c, r = res
             rep.add_model(f"SockProto/{name}", r, properties=["Live (FairSpec)"], constants=c)
+        elif kind == "raw":
+            name, c, r, what = res
+            rep.add_model(f"SockRaw/{name}", r, constants=c,
+                          **({"properties": ["Live (FairSpec)"]} if what == "live" else {"invariants": RAW_INV}))
         elif kind == "f10":
             name, c, r = res
             if r.violated != "BackPressureStrict":
